@@ -396,7 +396,8 @@ func intToValue(i int64) Value {
 	if i >= -maxInt && i <= maxInt {
 		return valueInt(i)
 	}
-	return valueFloat(i)
+	// beyond ±2^53 the nearest double may again be a safe integer (2^53+1 rounds to 2^53)
+	return floatToValue(float64(i))
 }
 
 func floatToInt(f float64) (result int64, ok bool) {
